@@ -81,6 +81,8 @@ type Property struct {
 	NeedsNetns bool
 	// Race: must be built with -race.
 	Race bool
+	// MaxJobs limits the number of workers (0 = no limit).
+	MaxJobs int
 }
 
 var registry = map[string]*Property{}
